@@ -103,6 +103,7 @@ func LoadProgram(dir, goarch string, tests bool) (*Program, error) {
 		}
 	}
 	sort.SliceStable(P.Funcs, func(i, j int) bool { return P.Funcs[i].Pos() < P.Funcs[j].Pos() })
+	P.renameMap() // resolve renamed helpers before any rule asks for a name
 	return P, nil
 }
 
@@ -131,6 +132,17 @@ func (P *Program) Pkg(suffix string) *types.Package {
 
 // Func resolves a declared function or method: recv=="" for package-level functions.
 func (P *Program) Func(pkgSuffix, recv, name string) *ssa.Function {
+	if f := P.funcByName(pkgSuffix, recv, name); f != nil && len(f.Blocks) > 0 {
+		return f
+	}
+	// renamed helper? (see baseline.go)
+	if f, ok := P.renameMap().aliases[pkgSuffix+"|"+recv+"|"+name]; ok {
+		return f
+	}
+	return nil
+}
+
+func (P *Program) funcByName(pkgSuffix, recv, name string) *ssa.Function {
 	pkg := P.Pkg(pkgSuffix)
 	if pkg == nil {
 		return nil
@@ -186,6 +198,11 @@ func (P *Program) Field(pkgSuffix, typeName, field string) *types.Var {
 	for i := 0; i < st.NumFields(); i++ {
 		if st.Field(i).Name() == field {
 			return st.Field(i)
+		}
+	}
+	for i := 0; i < st.NumFields(); i++ {
+		if fname(st.Field(i)) == field {
+			return st.Field(i) // renamed field (see baseline.go)
 		}
 	}
 	return nil
@@ -279,9 +296,9 @@ func funcName(fn *ssa.Function) string {
 		if n, ok := t.(*types.Named); ok {
 			tn = n.Obj().Name()
 		}
-		return fmt.Sprintf("%s(%s%s).%s", pkg, ptr, tn, o.Name())
+		return fmt.Sprintf("%s(%s%s).%s", pkg, ptr, tn, cname(o))
 	}
-	return pkg + o.Name()
+	return pkg + cname(o)
 }
 
 func origin(fn *ssa.Function) *ssa.Function {
